@@ -339,7 +339,7 @@ pub fn c05(tier: Tier) -> i32 {
                 for k in 0..t {
                     let mut env = env0.clone();
                     env.fault = Some(Fault { at: k, kind: FaultKind::Other });
-                    let mut alphabet = vec![Op::N, Op::SA];
+                    let mut alphabet = vec![Op::N, Op::SA, Op::E(1), Op::E(2)];
                     for i in 0..nrec.min(3) {
                         alphabet.push(Op::K(i as u8));
                     }
@@ -358,7 +358,7 @@ pub fn c05(tier: Tier) -> i32 {
         prop: "C05",
         tier,
         state_cap: if tier == Tier::Quick { 3000 } else { 60000 },
-        rule: format!("(a) {} ; (b) explicit-state BFS to fixpoint over {{next, read_record_set, read_record_set_exact(2), set_policy (reader rebuilt around its state), seek(position of record i) for EVERY record i and for the invalid FASTQ record}} from every reachable reader state (New, Parsing, Incomplete/Positioned with partial search state, Finished after end / after a parse error), {} scenarios (input x capacity x chunking) so that both the in-buffer shortcut and the real source seek are taken (counted in seeks_in_buffer / seeks_through_source); oracle: after seek(i) all reads behave as the reference stream from record i, position() after next() and after set reads = reference coordinates; the same under a never-growing policy at capacities that hold every record (no growth request, no BufferLimit after a seek); (c) {} scenarios with one source failure (read or seek) at every source call index and histories continued past the error: every record returned afterwards is genuine and position() is its true location, and seeks keep landing on the right record", a_rule, n, n_c),
+        rule: format!("(a) {} ; (b) explicit-state BFS to fixpoint over {{next, read_record_set, read_record_set_exact(2), set_policy (reader rebuilt around its state), seek(position of record i) for EVERY record i and for the invalid FASTQ record}} from every reachable reader state (New, Parsing, Incomplete/Positioned with partial search state, Finished after end / after a parse error), {} scenarios (input x capacity x chunking) so that both the in-buffer shortcut and the real source seek are taken (counted in seeks_in_buffer / seeks_through_source); oracle: after seek(i) all reads behave as the reference stream from record i, position() after next() and after set reads = reference coordinates; the same under a never-growing policy at capacities that hold every record (no growth request, no BufferLimit after a seek); (c) {} scenarios with one source failure (read or seek) at every source call index and histories over {{next, read_record_set, exact(1), exact(2), seeks}} continued past the error: every record returned afterwards is genuine and position() is its true location, and seeks keep landing on the right record", a_rule, n, n_c),
         scenarios,
         plain_depth: if tier == Tier::Quick { 4 } else { 5 },
         plain_every: 40,
